@@ -1021,6 +1021,11 @@ class Run:
             r = self.char_method(recv, m, args)
             if r is not None:
                 return r
+        if isinstance(recv, int) and not isinstance(recv, bool) and 0 <= recv < 256 and (m.startswith("is_ascii") or m in ("to_ascii_lowercase", "to_ascii_uppercase")) and not args:
+            # u8 has the same ASCII predicates as char
+            r = self.char_method(("ch", chr(recv)), m, args)
+            if r is not None:
+                return ord(r[1]) if isinstance(r, tuple) and r[0] == "ch" else r
         if isinstance(recv, tuple) and recv[0] == "ctor" and recv[1] in ("Some", "None"):
             if m in ("unwrap", "expect") and recv[1] == "Some":
                 return recv[2][0]
